@@ -168,3 +168,27 @@ func VH_C14_Large() {
 		vAssert(got[j] == data[j], "Recv returned different bytes than were sent")
 	}
 }
+
+// VH_C14_NoChunking: no maximum chunk size configured (as in the mailbox
+// transport): for a payload of any length up to 4 MiB the single Recv result
+// has the same length and the same byte at every index; a second message
+// stays separate.
+func VH_C14_NoChunking() {
+	l := vInt("len")
+	vAssume(l >= 0 && l <= 4<<20)
+	a, b, ch := vPipe(0)
+	data := vStream("d", l)
+	vAssert(a.Send(data) == nil, "Send failed")
+	vReach("nochunk-sent")
+	_ = ch // how many packets carry it is the sender's business
+	next := vBytes("next", 1)
+	vAssert(a.Send(next) == nil, "second Send failed")
+	got, err := b.Recv()
+	vAssert(err == nil && len(got) == l, "Recv failed or returned a different length (messages merged or split)")
+	j := vInt("j")
+	if err == nil && j >= 0 && j < l && j < len(got) {
+		vAssert(got[j] == data[j], "Recv returned different bytes than were sent")
+	}
+	got2, err := b.Recv()
+	vAssert(err == nil && vBytesEq(got2, next), "the following message did not arrive as a message of its own")
+}
